@@ -161,7 +161,6 @@ def run_nrt(spec, acc):
             for tc in tclocks:
                 try:
                     tc.stop()
-                    type(tc)._all.discard(tc)   # NRT stop() keeps them alive
                 except Exception:
                     pass
         if err is not None:
